@@ -242,6 +242,7 @@ type Case struct {
 	refused         []refusedProp
 	acceptedByRound map[specqbft.Round][32]byte // root of the proposal accepted per round (instance of c.height)
 	secondProposal  bool                        // two different proposals were accepted for one round
+	prod            bool                        // production wiring (prodcfg.go)
 	firedUnarmed    bool                        // a ctimeout op named a timer that was not the live one
 	sentAll         map[msgKey]bool             // single-signer messages this operator broadcast
 	gotSigned       []msgKey                    // validly signed single-signer messages of OTHER operators it was fed (replay consistency)
@@ -253,6 +254,9 @@ type Case struct {
 }
 
 func (c *Case) valCheck(data []byte) error {
+	if c.prod { // the production value check (ssv-spec AttesterValueCheckF, as wired by SetupRunners)
+		return c.cfg.ValueCheckF(data)
+	}
 	if len(data) == 0 {
 		return fmt.Errorf("invalid value")
 	}
@@ -281,29 +285,51 @@ func (c *Case) nodeConfig(rc *recorder) *qbft.Config {
 }
 
 func newCase(env *Env, op spectypes.OperatorID, height specqbft.Height, bad [][]byte, ctrlMode, withSpec, withShadow bool) *Case {
-	c := &Case{env: env, in: NewIntern(env.identifier), op: op, height: height, bad: bad, ctrlMode: ctrlMode, rc: &recorder{}}
+	return newCaseCfg(env, op, height, bad, ctrlMode, withSpec, withShadow, false)
+}
+
+// newCaseCfg: prod = the node objects come from the PRODUCTION wiring (prodcfg.go) instead of the harness's own qbft.Config
+func newCaseCfg(env *Env, op spectypes.OperatorID, height specqbft.Height, bad [][]byte, ctrlMode, withSpec, withShadow, prod bool) *Case {
+	c := &Case{env: env, in: NewIntern(env.identifier), op: op, height: height, bad: bad, ctrlMode: ctrlMode, rc: &recorder{}, prod: prod}
 	regCase(c)
-	c.cfg = c.nodeConfig(c.rc)
 	share := env.share(op)
-	if ctrlMode {
-		c.ctrl = controller.NewController(env.identifier, share, c.cfg, false)
+	if prod {
+		c.ctrl, c.cfg = c.prodController(c.rc)
+		var shCfg *qbft.Config
 		if withShadow {
 			c.shadowRc = &recorder{}
-			c.shCtrl = controller.NewController(env.identifier, env.share(op), c.nodeConfig(c.shadowRc), false)
+			c.shCtrl, shCfg = c.prodController(c.shadowRc)
+		}
+		if !ctrlMode { // instance-level cases: the node's instance with the production config
+			c.inst = instance.NewInstance(c.cfg, c.ctrl.Share, env.identifier, height)
+			c.ctrl = nil
+			if withShadow {
+				c.shInst = instance.NewInstance(shCfg, c.shCtrl.Share, env.identifier, height)
+				c.shCtrl = nil
+			}
 		}
 	} else {
-		c.inst = instance.NewInstance(c.cfg, share, env.identifier, height)
-		if withShadow {
-			c.shadowRc = &recorder{}
-			c.shInst = instance.NewInstance(c.nodeConfig(c.shadowRc), env.share(op), env.identifier, height)
+		c.cfg = c.nodeConfig(c.rc)
+		if ctrlMode {
+			c.ctrl = controller.NewController(env.identifier, share, c.cfg, false)
+			if withShadow {
+				c.shadowRc = &recorder{}
+				c.shCtrl = controller.NewController(env.identifier, env.share(op), c.nodeConfig(c.shadowRc), false)
+			}
+		} else {
+			c.inst = instance.NewInstance(c.cfg, share, env.identifier, height)
+			if withShadow {
+				c.shadowRc = &recorder{}
+				c.shInst = instance.NewInstance(c.nodeConfig(c.shadowRc), env.share(op), env.identifier, height)
+			}
 		}
-		if withSpec {
-			c.specRc = &recorder{}
-			c.specH = height
-			scfg := &specqbft.Config{Signer: testingutils.NewTestingKeyManager(), SigningPK: env.ks.ValidatorPK.Serialize(), Domain: env.domain,
-				ValueCheckF: c.valCheck, ProposerF: specqbft.RoundRobinProposer, Network: c.specRc, Timer: specTimer{c.specRc, &c.specH}}
-			c.spec = specqbft.NewInstance(scfg, env.share(op), env.identifier, height)
-		}
+	}
+	if !ctrlMode && withSpec { // the reference: ssv-spec instance, reference leader function, reference value check
+		c.specRc = &recorder{}
+		c.specH = height
+		scfg := &specqbft.Config{Signer: testingutils.NewTestingKeyManager(), SigningPK: env.ks.ValidatorPK.Serialize(), Domain: env.domain,
+			ValueCheckF: c.valCheck, ProposerF: specqbft.RoundRobinProposer, Network: c.specRc, Timer: specTimer{c.specRc, &c.specH}}
+		c.spec = specqbft.NewInstance(scfg, env.share(op), env.identifier, height)
 	}
 	return c
 }
@@ -322,8 +348,11 @@ func (c *Case) resetLine() string {
 		bs = strings.Join(bad, "+")
 	}
 	role := ""
+	if c.prod {
+		role = " cfg=prod" // ignored by the model driver; replay rebuilds the node objects through the production wiring
+	}
 	if c.role == 2 {
-		role = " role=2" // ignored by the model driver; multi-node replays keep the two duty roles apart
+		role += " role=2" // ignored by the model driver; multi-node replays keep the two duty roles apart
 	}
 	return fmt.Sprintf("reset mode=%s n=%d q=%d pq=%d op=%d h=%d cutoff=%d cap=%d bad=%s%s", mode, c.env.n, c.env.q, c.env.pq, uint64(c.op),
 		uint64(c.height), instance.CutoffRound, controller.InstanceContainerDefaultCapacity, bs, role)
